@@ -39,6 +39,20 @@ func Keys(r *rand.Rand, profile string, n int) []string {
 		for i := 0; i < n; i++ {
 			ks = append(ks, fmt.Sprintf("%s/%d@%c", prefix[:len(prefix)-r.Intn(10)], i, 'a'+rune(r.Intn(3))))
 		}
+	case "prefix":
+		// many pairs where one key is a prefix of another and the next byte sorts below '@' (digits,
+		// '!', '/', ' '): the order of versioned keys "k@5" / "k0@3" differs from the raw byte order
+		stems := []string{"k", "k0", "k1", "k!", "k/", "k/1", "k0a", "k00", "k1!", "k 0", "kA", "k@", "k@0", "k", "m", "m0", "m!", "m01"}
+		seen := map[string]bool{}
+		for _, i := range r.Perm(len(stems)) {
+			if len(ks) < n && !seen[stems[i]] {
+				seen[stems[i]] = true
+				ks = append(ks, stems[i])
+			}
+		}
+		for i := len(ks); i < n; i++ {
+			ks = append(ks, fmt.Sprintf("k%d!%d", i%3, i))
+		}
 	case "binary":
 		seen := map[string]bool{}
 		for len(ks) < n {
@@ -59,7 +73,7 @@ func Keys(r *rand.Rand, profile string, n int) []string {
 	return ks
 }
 
-var KeyProfiles = []string{"hostile", "windowed", "long", "binary", "plain"}
+var KeyProfiles = []string{"hostile", "windowed", "long", "binary", "plain", "prefix"}
 
 // Value builds a unique value "<tag>" padded to one of the interesting lengths.
 func Value(r *rand.Rand, tag string, big bool) []byte {
